@@ -1,23 +1,41 @@
 """C11 — Cooperator/CooperativeTask: real twisted.internet.task vs the Lean model + a history oracle.
 
-A case is a whole history: {"started": bool, "ops": [token, ...]} with the tokens of the driver protocol
-(lean/TwistedModel/Drv/C11.lean):
-  n:<script> cooperate     c:<script> coiterate     script = items v | d<j> | r joined by ',' ('-' = empty)
+A case is a whole history: {"started": bool, "ops": [token, ...], "exc": "B"?, "rx": [[token, ...], ...]?, "oh": {obs: n}?}
+with the tokens of the driver protocol (lean/TwistedModel/Drv/C11.lean):
+  n:<script> cooperate     c:<script> coiterate     C:<script> coiterate(it, doneDeferred) with a Deferred of the caller
+  script = items joined by ',' ('-' = empty): v value | r raise | e StopIteration | a Deferred j, in one of the flavours
+           d<j> plain | D<j> subclass instance (even j: trivial subclass, odd j: DeferredList over the Deferred that is fired)
+           | k<j> already called back, its callback chain held by an inner Deferred that is the one fired
+           — every flavour is ONE pending Deferred for the model (`d<j>`); an item may carry a hook `@<n>` (below)
   p<t> pause  r<t> resume  s<t> stop  w<t> whenDone  t<b> one scheduler tick with a work-unit budget b
   f<j>+ / f<j>- fire the yielded Deferred j with success / failure      S Cooperator.stop   G Cooperator.start
+Re-entrant histories (oracle only, model_line -> None): rx[n] is a list of operations (p r s w f S n: c:, task `.` = the
+task whose iterator / observer is running) executed from INSIDE next() by an item `@<n><item>` before it yields/raises,
+or from inside the callback of whenDone/coiterate Deferred number o when oh[o] = n.
 """
+import json
+
 from twisted.internet import defer, task
 from twisted.python.failure import Failure
 
 HEADLINE = "TwistedProps.C11.never_advanced_unless_runnable_partial"
 RULE = ("whole histories over <= 8 tasks: scripted iterators (values, Deferreds fired before/after the yield with "
         "success/failure, raise, exhaustion), interleaved pause/resume/stop/whenDone/tick(budget)/fire/"
-        "Cooperator.stop/Cooperator.start; one exhaustive family (all ways to have k runnable + paused tasks at "
-        "Cooperator.stop); distinct = set of behaviour features of the history (which exceptions, completion kinds, "
-        "pause-while-waiting, pre-fired Deferred, removal-under-iteration skip, stop with k runnable, ...)")
+        "Cooperator.stop/Cooperator.start; yielded Deferreds in four flavours (plain, subclass instance, DeferredList, "
+        "already-called-but-chained on an unfired inner Deferred: ~45% of the Deferred items); coiterate with and without a "
+        "caller-supplied doneDeferred; one exhaustive family (all ways to have k runnable + paused tasks at "
+        "Cooperator.stop); a re-entrant family (a third of the random cases, oracle only): operation lists run from inside "
+        "next() (incl. pause/stop of the running task itself, Cooperator.stop, new tasks, firing Deferreds) and from "
+        "inside whenDone/coiterate callbacks (incl. callbacks fired by Cooperator.stop that stop/pause other tasks, stop "
+        "again or add tasks); distinct = set of behaviour features of the history (which exceptions, completion kinds, "
+        "pause-while-waiting, pre-fired Deferred, removal-under-iteration skip, stop with k runnable, Deferred flavour, "
+        "which operation ran re-entrantly in which context with which result, ...)")
 ASSUMES = [
-    "whenDone observers and iterators do not re-enter the Cooperator (operations interleave between ticks / work units "
-    "as in the statement; re-entrant calls from inside next() or a whenDone callback are not explored)",
+    "Cooperator.start() and scheduler ticks are not issued re-entrantly (from inside next() or a whenDone callback); every "
+    "other operation is (re-entrant family, judged by the oracle only: the Lean model and theorems cover the histories whose "
+    "operations interleave between work units)",
+    "during a Cooperator.stop() whose callbacks act on a task that was runnable when stop() began, whether stop() had already "
+    "reached that task is read off the operation's result (SchedulerStopped or success); both orders satisfy the statement",
     "each yielded Deferred is yielded by one task once (the model keeps one callback pair per Deferred)",
     "resume() is called by a caller with an outstanding pause() of its own (balanced histories); the unbalanced case is "
     "generated too and is reported under the finding key unmatched-resume-advanced-while-waiting",
@@ -44,9 +62,12 @@ MANIFEST = {
             "decreases a rank; tick_scheduled_when_runnable — a started Cooperator with non-empty _tasks always has a delayed call "
             "pending (an un-started one has _mustScheduleOnStart set), and that tick calls next() at least once "
             "(tick_advances_some_task). Model tied to task.py by differential runs of whole "
-            "histories; an independent history oracle checks the same statement on the real code.",
+            "histories (yielded Deferreds of every flavour: plain, subclass, DeferredList, called-but-chained, are one pending "
+            "Deferred of the model; coiterate with a caller's doneDeferred is the model's coiterate); an independent history "
+            "oracle checks the same statement on the real code, also on re-entrant histories (operations issued from inside "
+            "next() and from whenDone/coiterate callbacks), which have no model counterpart.",
     "note": "trusts Lean kernel, the hand-written model of Cooperator/CooperativeTask (differentially tied), CPython list-iterator "
-            "semantics; re-entrant use from callbacks is outside the explored histories; the starvation bound proved is N^2 work units "
+            "semantics; re-entrant use (from next() and from callbacks) is explored by the oracle on the real code only and is not covered by the theorems; the starvation bound proved is N^2 work units "
             "(the oracle checks the tighter (departures+1)*(N-1) on the real code)",
     "technique": "Lean 4 proof (state invariants: membership/pause-count, observer ownership, scheduling; ranking function over "
                  "move sequences) + differential tie + history oracle",
@@ -81,8 +102,39 @@ class _Terminator:
         return self.n >= self.box[0]
 
 
+class _SubDeferred(defer.Deferred):
+    """a plain subclass of Deferred (item flavour D, even ids)"""
+
+
+def split_item(it):
+    """'@3d5' -> (3, 'd5'); 'v' -> (None, 'v')"""
+    if it.startswith("@"):
+        n = 1
+        while n < len(it) and it[n].isdigit():
+            n += 1
+        return int(it[1:n]), it[n:]
+    return None, it
+
+
+def is_rx(c):
+    return bool(c.get("rx")) or bool(c.get("oh")) or any("@" in o for o in c["ops"] if o[0] in "ncC")
+
+
+def _flavours(c):
+    fl = {}
+    for ops in [c["ops"]] + list(c.get("rx") or []):
+        for o in ops:
+            if o[0] in "ncC":
+                for it in parse_script(o[2:]):
+                    b = split_item(it)[1]
+                    if b[0] in "dDk":
+                        fl.setdefault(int(b[1:]), b[0])
+    return fl
+
+
 class _ScriptIter:
-    """An iterator that follows a script and logs every next() call."""
+    """An iterator that follows a script and logs every next() call; an item `@<n><base>` first runs the
+    re-entrant operations rx[n] from inside next()."""
 
     def __init__(self, idx, items, env):
         self.idx, self.items, self.pos, self.env, self.dead = idx, items, 0, env, False
@@ -91,18 +143,28 @@ class _ScriptIter:
         return self
 
     def __next__(self):
-        self.env["adv"].append(self.idx)
-        if self.dead or self.pos >= len(self.items):
-            self.dead = True
-            raise StopIteration
-        it = self.items[self.pos]
-        self.pos += 1
-        if it == "v":
-            return self.pos
-        if it == "r":
-            self.dead = True
-            raise self.env["exc"](self.idx)
-        return self.env["getd"](int(it[1:]))
+        env = self.env
+        env["adv"].append(self.idx)
+        env["ev"].append(["a", self.idx])
+        try:
+            if self.dead or self.pos >= len(self.items):
+                self.dead = True
+                raise StopIteration
+            hook, it = split_item(self.items[self.pos])
+            self.pos += 1
+            if hook is not None:
+                env["hook"](hook, self.idx)
+            if it == "v":
+                return self.pos
+            if it == "e":
+                self.dead = True
+                raise StopIteration
+            if it == "r":
+                self.dead = True
+                raise env["exc"](self.idx)
+            return env["getd"](int(it[1:]))[0]
+        finally:
+            env["ev"].append(["z"])
 
 
 def parse_script(s):
@@ -113,6 +175,8 @@ def _canon(result, iterator):
     if result is iterator:
         return "I"
     if isinstance(result, Failure):
+        if result.check(defer.FirstError):
+            result = result.value.subFailure
         if result.check(task.TaskStopped):
             return "TS"
         if result.check(task.SchedulerStopped):
@@ -125,92 +189,165 @@ def _canon(result, iterator):
     return "?" + type(result).__name__
 
 
+MAXTASKS = 14
+
+
 def run_impl(c):
     clock = task.Clock()
     box = [1]
     coop = task.Cooperator(terminationPredicateFactory=lambda: _Terminator(box),
                            scheduler=lambda f: clock.callLater(1, f), started=bool(c["started"]))
     ds = {}
+    flav = _flavours(c)
+    rx = c.get("rx") or []
+    oh = c.get("oh") or {}
+    rxmode = is_rx(c)
 
     def getd(j):
+        """-> (the Deferred a script yields, the Deferred an `f` op fires)"""
         if j not in ds:
-            ds[j] = defer.Deferred()
+            f = flav.get(j, "d")
+            if f == "k":
+                # already called back, but its callback chain is held by an inner Deferred that has not fired
+                inner, outer = defer.Deferred(), defer.Deferred()
+                outer.addCallback(lambda _, inner=inner: inner)
+                outer.callback(None)
+                ds[j] = (outer, inner)
+            elif f == "D" and j % 2:
+                inner = defer.Deferred()
+                ds[j] = (defer.DeferredList([inner], fireOnOneErrback=True, consumeErrors=True), inner)
+            elif f == "D":
+                d = _SubDeferred()
+                ds[j] = (d, d)
+            else:
+                d = defer.Deferred()
+                ds[j] = (d, d)
         return ds[j]
 
-    env = {"adv": [], "getd": getd, "exc": ScriptBaseError if c.get("exc") == "B" else ScriptError}
+    ev = []
+    env = {"adv": [], "getd": getd, "exc": ScriptBaseError if c.get("exc") == "B" else ScriptError, "ev": ev}
     tasks, iters, obs, newly = [], [], [], []
 
-    def observe(d, it):
+    def observe(d, it, owner):
         o = len(obs)
         obs.append([])
 
-        def rec(r, o=o, it=it):
-            obs[o].append(_canon(r, it))
+        def rec(r, o=o, it=it, owner=owner):
+            v = _canon(r, it)
+            obs[o].append(v)
             newly.append(o)
+            ev.append(["o", o, v])
+            try:
+                if str(o) in oh:
+                    hook(oh[str(o)], owner)
+            finally:
+                ev.append(["q"])
             return None
         d.addBoth(rec)
 
-    toks = []
-    for op in c["ops"]:
-        err = ""
-        del newly[:]
-        before = len(env["adv"])
+    def hook(n, self_idx):
+        if n >= len(rx):
+            return
+        for op in rx[n]:
+            ev.append(["(", op])
+            ev.append([")", do_op(op, self_idx, True)])
+
+    env["hook"] = hook
+
+    def do_op(op, self_idx, nested):
         try:
             k = op[0]
-            if k in "nc":
+            if k in "ncC":
+                if len(iters) >= MAXTASKS:
+                    return "skip"
                 idx = len(iters)
                 it = _ScriptIter(idx, parse_script(op[2:]), env)
                 iters.append(it)
                 tasks.append(None)
                 if k == "n":
                     tasks[idx] = coop.cooperate(it)
+                elif k == "c":
+                    observe(coop.coiterate(it), it, idx)
                 else:
-                    observe(coop.coiterate(it), it)
+                    dd = defer.Deferred()
+                    got = coop.coiterate(it, dd)
+                    if got is not dd:
+                        return "!NotTheDoneDeferred"
+                    observe(dd, it, idx)
             elif k in "prsw":
-                t = tasks[int(op[1:])]
-                if t is None:
-                    err = "!NoHandle"
-                elif k == "p":
+                ti = self_idx if op[1:] == "." else int(op[1:])
+                if ti is None or ti >= len(tasks) or tasks[ti] is None:
+                    return "skip" if nested else "!NoHandle"
+                t = tasks[ti]
+                if k == "p":
                     t.pause()
                 elif k == "r":
                     t.resume()
                 elif k == "s":
                     t.stop()
                 else:
-                    observe(t.whenDone(), iters[int(op[1:])])
-            elif k == "t":
+                    observe(t.whenDone(), iters[ti], ti)
+            elif k == "t" and not nested:
                 box[0] = int(op[1:])
                 clock.advance(1)
             elif k == "f":
                 j = int(op[1:-1])
                 if op[-1] == "+":
-                    getd(j).callback(None)
+                    getd(j)[1].callback(None)
                 else:
-                    getd(j).errback(Failure(DeferredFailed(j)))
+                    getd(j)[1].errback(Failure(DeferredFailed(j)))
             elif k == "S":
                 coop.stop()
             elif k == "G":
                 coop.start()
             else:
-                err = "!BadOp"
+                return "!BadOp"
         except (Exception, ScriptBaseError) as e:  # noqa: BLE001 — the exception class is the observable
-            err = "!" + type(e).__name__
+            return "!" + type(e).__name__
+        return "ok"
+
+    toks, recs = [], []
+    for op in c["ops"]:
+        del newly[:]
+        del ev[:]
+        before = len(env["adv"])
+        err = do_op(op, None, False)
+        if err == "ok":
+            err = ""
         if op[0] == "t":
             tok = "t=" + ".".join(str(i) for i in env["adv"][before:]) + err
         else:
             tok = err or "ok"
         for o in sorted(set(newly)):
             tok += "+%d=%s" % (o, "/".join(obs[o]))
-        if any(dc.active() for dc in clock.getDelayedCalls()):
+        pend = any(dc.active() for dc in clock.getDelayedCalls())
+        if pend:
             tok += "*"
         toks.append(tok)
+        recs.append([err or "ok", list(ev), pend])
     for d in ds.values():          # keep failures swallowed inside the yielded Deferreds quiet
-        d.addErrback(lambda f: None)
-    return ";".join(toks) + "|obs=" + ",".join("/".join(v) if v else "-" for v in obs)
+        d[0].addErrback(lambda f: None)
+        d[1].addErrback(lambda f: None)
+    obsfinal = ",".join("/".join(v) if v else "-" for v in obs)
+    if rxmode:
+        return "X" + json.dumps(recs, separators=(",", ":")) + "|obs=" + obsfinal
+    return ";".join(toks) + "|obs=" + obsfinal
+
+
+def _flat_op(o):
+    """the op in the model's language: Deferred flavours are one pending Deferred, a passed doneDeferred is a coiterate"""
+    if o[0] in "ncC":
+        items = []
+        for it in parse_script(o[2:]):
+            items.append("d" + it[1:] if it[0] in "Dk" else it)
+        return ("c" if o[0] == "C" else o[0]) + ":" + (",".join(items) if items else "-")
+    return o
 
 
 def model_line(c):
-    return ("1 " if c["started"] else "0 ") + " ".join(c["ops"])
+    if is_rx(c):
+        return None          # re-entrant histories: judged by the oracle only (no model counterpart)
+    return ("1 " if c["started"] else "0 ") + " ".join(_flat_op(o) for o in c["ops"])
 
 
 # ------------------------------------------------------------------------------------------------
@@ -249,6 +386,8 @@ def _parse_tok(tok):
 
 def oracle(c, out):
     try:
+        if is_rx(c) and not out.startswith("!raised"):
+            return _oracle_rx(c, out)
         return _oracle(c, out)
     except (ValueError, IndexError, KeyError) as e:
         return {"key": "oracle-cannot-parse", "detail": f"{type(e).__name__}: {e} on {out!r}"}
@@ -259,7 +398,7 @@ def _oracle(c, out):
         return {"key": "harness-raised", "detail": out}
     body, obsfinal = out.split("|obs=")
     toks = body.split(";") if body else []
-    ops = c["ops"]
+    ops = [_flat_op(o) for o in c["ops"]]
     if len(toks) != len(ops):
         return {"key": "oracle-cannot-parse", "detail": "token count"}
     T, obs_owner, obs_val, fired_d = [], [], [], {}
@@ -445,6 +584,324 @@ def _oracle(c, out):
 
 
 # ------------------------------------------------------------------------------------------------
+# the same statement on RE-ENTRANT histories: operations issued from inside an iterator's next() or from a
+# whenDone/coiterate callback are operations of the history that happen at that moment.  The implementation's
+# observable is an event stream per top-level op: ["(", op] … [")", result] around every (nested) operation,
+# ["a", t] … ["z"] around every next() call, ["o", obs, value] … ["q"] around every observer callback.
+
+class _Ignore(Exception):
+    pass
+
+
+class _Judge:
+    def __init__(self, started):
+        self.T, self.obs_owner, self.obs_val, self.fired_d = [], [], [], {}
+        self.started, self.stopped = started, False
+        self.stack = []
+        self.i, self.top = 0, ""
+
+    def bad(self, key, msg):
+        return {"key": key, "detail": f"op #{self.i} {self.top!r}: {msg}"}
+
+    # -- the bookkeeping of the flat oracle
+    def others_removed(self, t):
+        for u in self.T:
+            if u is not t and u.runnable():
+                u.removals += 1
+
+    def finish(self, t, val):
+        if t.fin is None:
+            if t.runnable():
+                self.others_removed(t)
+            t.fin = val
+
+    def became_runnable(self, t):
+        t.wait, t.removals = 0, 0
+        if self.stopped and t.runnable():
+            t.fin = "SS"
+
+    def new_obs(self, ti):
+        self.obs_owner.append(ti)
+        self.obs_val.append(None)
+        self.T[ti].obs.append(len(self.obs_owner) - 1)
+
+    def self_idx(self):
+        for fr in reversed(self.stack):
+            if fr["kind"] in "ao":
+                return fr["ti"]
+        return None
+
+    def open_stop_frame(self, t):
+        for fr in reversed(self.stack):
+            if fr["kind"] == "op" and fr["op"] == "S" and id(t) in fr["R"]:
+                return fr
+        return None
+
+    def apply_ps(self, k, t):
+        if k == "p":
+            if t.runnable():
+                self.others_removed(t)
+            t.up += 1
+        else:
+            self.finish(t, "TS")
+
+    # -- events
+    def event(self, e):
+        kind = e[0]
+        if kind == "(":
+            return self.op_begin(e[1])
+        if kind == ")":
+            return self.op_end(self.stack.pop(), e[1])
+        if kind == "a":
+            return self.adv_begin(e[1])
+        if kind == "z":
+            return self.adv_end(self.stack.pop())
+        if kind == "o":
+            return self.obs_fire(e[1], e[2])
+        if kind == "q":
+            self.stack.pop()
+            return None
+        raise ValueError("event " + repr(e))
+
+    def op_begin(self, op):
+        fr = {"kind": "op", "op": op, "expect": "ok", "key": "live-op-raised", "late": None, "t": None}
+        nested = bool(self.stack)
+        self.stack.append(fr)
+        k = op[0]
+        if k in "ncC":
+            if len(self.T) >= MAXTASKS:
+                fr["expect"] = "skip"
+                return None
+            t = _T(parse_script(op[2:]), k == "n")
+            self.T.append(t)
+            if k != "n":
+                self.new_obs(len(self.T) - 1)
+            self.became_runnable(t)
+            fr["key"] = "create-raised"
+        elif k in "prsw":
+            ti = self.self_idx() if op[1:] == "." else int(op[1:])
+            if ti is None or ti >= len(self.T) or not self.T[ti].handle:
+                if not nested:
+                    raise _Ignore()
+                fr["expect"] = "skip"
+                return None
+            t = fr["t"] = self.T[ti]
+            if k == "w":
+                self.new_obs(ti)
+                fr["key"] = "whendone-raised"
+            elif k == "r":
+                if t.up > 0:
+                    fr["key"] = "resume-raised"
+                    t.up -= 1
+                    if t.up == 0:
+                        self.became_runnable(t)
+                else:
+                    fr["expect"] = None
+                    if t.waiting:
+                        # accepted by the code (known finding): from here only "never advanced while waiting" is judged
+                        t.unmatched += 1
+                        t.tainted = True
+            elif t.tainted:
+                fr["expect"], fr["late"] = None, "tainted"
+            elif t.fin is not None:
+                fr["expect"], fr["key"] = "!" + MATCH.get(t.fin, "TaskFailed"), "finished-op-wrong-exception"
+            elif self.open_stop_frame(t) is not None:
+                # a Cooperator.stop() is in progress and this task was runnable when it began: whether stop() has
+                # reached it yet is not determined by the statement — decided by the result
+                fr["expect"], fr["late"] = None, k
+            else:
+                self.apply_ps(k, t)
+        elif k == "f":
+            j = int(op[1:-1])
+            if j in self.fired_d:
+                fr["expect"] = None
+                return None
+            fr["key"] = "fire-raised"
+            ok = self.fired_d[j] = op[-1] == "+"
+            for t in self.T:
+                if j in t.waiting:
+                    t.waiting.discard(j)
+                    if ok:
+                        if t.fin is None and t.up == 0 and not t.waiting:
+                            self.became_runnable(t)
+                    elif t.fin is None:
+                        t.fin = "F%d" % j
+        elif k == "S":
+            fr["key"] = "cooperator-stop-raised"
+            self.stopped = True
+            fr["R"] = {id(t) for t in self.T if t.runnable()}
+        elif k == "G":
+            self.stopped, self.started = False, True
+            fr["expect"] = None
+        elif k == "t":
+            if nested:
+                raise ValueError("nested tick")
+            fr["key"] = "tick-raised"
+        else:
+            raise _Ignore()
+        return None
+
+    def op_end(self, fr, res):
+        op, k, t = fr["op"], fr["op"][0], fr["t"]
+        if res in ("!NoHandle", "!BadOp"):
+            raise _Ignore()
+        if fr["expect"] == "skip" or res == "skip":
+            if fr["expect"] != res:
+                raise ValueError(f"skip mismatch on {op}")
+            return None
+        if fr["late"] == "tainted":
+            if res == "ok" and k == "s":
+                t.fin = "TS"
+            return None
+        if fr["late"] in ("p", "s"):
+            if fr.get("resolved"):
+                want = "ok"
+            elif res == "!SchedulerStopped" and t.fin in (None, "SS"):
+                t.fin = "SS"
+                return None
+            elif t.fin is not None:
+                want = "!" + MATCH.get(t.fin, "TaskFailed")
+            else:
+                want = "ok"
+                if res == "ok":
+                    self.apply_ps(k, t)
+            if res != want:
+                return self.bad("live-op-raised" if want == "ok" else "finished-op-wrong-exception",
+                                f"{op} during Cooperator.stop() -> {res}, expected {want}")
+            return None
+        if k == "S" and res == "ok":
+            for u in self.T:
+                if u.runnable():
+                    u.fin = "SS"
+        if fr["expect"] is not None and res != fr["expect"]:
+            key = fr["key"]
+            if key == "finished-op-wrong-exception" and (res.startswith("!Task") or res == "!SchedulerStopped"):
+                key = "completion-overwritten"
+            if key == "live-op-raised" and res == "!ValueError":
+                key = "cooperator-stop-skips-task"
+            return self.bad(key, f"{op} -> {res}, expected {fr['expect']}"
+                            + (f" (task finished with {t.fin})" if t is not None and t.fin else ""))
+        return None
+
+    def adv_begin(self, a):
+        T = self.T
+        t = T[a]
+        why = None
+        if t.tainted:
+            if t.waiting:
+                return self.bad("unmatched-resume-advanced-while-waiting",
+                                f"task {a} advanced while waiting on Deferred(s) {sorted(t.waiting)} after {t.unmatched} "
+                                "resume() call(s) without a matching pause()")
+            self.others_removed(t)
+        elif t.fin is not None:
+            why = ("advanced-while-finished", f"finished ({t.fin})")
+        elif t.up > 0:
+            why = ("advanced-while-paused", f"paused by its caller ({t.up} outstanding)")
+        elif t.waiting:
+            why = ("advanced-while-waiting", f"waiting on Deferred(s) {sorted(t.waiting)}")
+        if why:
+            return self.bad(why[0], f"task {a} advanced while {why[1]}")
+        n = len(T)
+        for u in T:
+            if u is not t and u.runnable():
+                u.wait += 1
+                if u.wait > (u.removals + 1) * max(1, n - 1):
+                    return self.bad("starved", f"task {T.index(u)} stayed runnable through {u.wait} work units of "
+                                    f"other tasks ({u.removals} departures, {n} tasks) without being advanced")
+        t.wait, t.removals = 0, 0
+        item = None
+        if t.pos < len(t.items):
+            item = split_item(t.items[t.pos])[1]
+            t.pos += 1
+        self.stack.append({"kind": "a", "ti": a, "item": item})
+        return None
+
+    def adv_end(self, fr):
+        t, item = self.T[fr["ti"]], fr["item"]
+        if item is None or item == "e":
+            self.finish(t, "I")
+        elif item == "r":
+            self.finish(t, "E")
+        elif item != "v" and t.fin is None:
+            # (a task that was stopped from inside this very next() call completes once: the Deferred is not waited for)
+            j = int(item[1:])
+            self.others_removed(t)
+            if j not in self.fired_d:
+                t.waiting.add(j)
+            elif not self.fired_d[j]:
+                t.fin = "F%d" % j
+            else:
+                self.became_runnable(t)
+        return None
+
+    def obs_fire(self, o, v):
+        if o >= len(self.obs_val):
+            raise ValueError("observer index")
+        if self.obs_val[o] is not None:
+            return self.bad("whendone-fired-twice", f"observer {o} fired again")
+        self.obs_val[o] = v
+        ti = self.obs_owner[o]
+        t = self.T[ti]
+        if t.fin is None and not t.tainted:
+            for fr in reversed(self.stack):
+                if fr["kind"] != "op":
+                    continue
+                if fr["late"] == "s" and fr["t"] is t and v == "TS":
+                    self.finish(t, "TS")
+                    fr["resolved"] = True
+                    break
+                if fr["op"] == "S" and id(t) in fr["R"] and v == "SS":
+                    t.fin = "SS"
+                    break
+        self.stack.append({"kind": "o", "ti": ti})
+        return None
+
+    def end_top(self, k, pend):
+        for o, owner in enumerate(self.obs_owner):
+            t = self.T[owner]
+            if t.tainted:
+                continue
+            if t.fin is None and self.obs_val[o] is not None:
+                return self.bad("whendone-fired-early", f"observer {o} of unfinished task {owner} fired with {self.obs_val[o]}")
+            if t.fin is not None and self.obs_val[o] is None:
+                key = "cooperator-stop-skips-task" if k == "S" else "whendone-not-fired"
+                return self.bad(key, f"task {owner} finished ({t.fin}) but its whenDone/coiterate Deferred {o} has not fired")
+            if t.fin is not None and self.obs_val[o] != t.fin:
+                return self.bad("completion-overwritten" if k == "w" else "whendone-wrong-value",
+                                f"observer {o} of task {owner} fired with {self.obs_val[o]}, task finished with {t.fin}")
+        if self.started and not self.stopped and any(t.runnable() for t in self.T) and not pend:
+            return self.bad("runnable-but-no-tick-scheduled", "runnable tasks exist but no delayed call is pending")
+        return None
+
+
+def _oracle_rx(c, out):
+    body, obsfinal = out.split("|obs=")
+    recs = json.loads(body[1:])
+    ops = c["ops"]
+    if len(recs) != len(ops):
+        return {"key": "oracle-cannot-parse", "detail": "record count"}
+    J = _Judge(bool(c["started"]))
+    try:
+        for i, (op, (res, ev, pend)) in enumerate(zip(ops, recs)):
+            J.i, J.top = i, f"{op} -> {res}"
+            for e in [["(", op]] + ev + [[")", res]]:
+                v = J.event(e)
+                if v:
+                    return v
+            if J.stack:
+                raise ValueError("unbalanced events")
+            v = J.end_top(op[0], pend)
+            if v:
+                return v
+    except _Ignore:
+        return None          # not a history of the public API
+    final = obsfinal.split(",") if obsfinal else []
+    if [v if v is not None else "-" for v in J.obs_val] != final:
+        return {"key": "whendone-fired-twice", "detail": f"final observer values {final} differ from the per-op record {J.obs_val}"}
+    return None
+
+
+# ------------------------------------------------------------------------------------------------
 # cases
 
 def corpus():
@@ -476,6 +933,34 @@ def corpus():
         ["n:v,r", "n:v,v,v", "w0", "w1", "t1", "t1", "t1", "t3", "s0", "p0"],
         ["c:r", "n:v,v", "t1", "t1", "t1"],
         cs[6])]
+    # Deferred flavours (a subclass instance, a DeferredList, an already-called Deferred whose chain is held by an inner
+    # Deferred) and coiterate(it, doneDeferred) — white-box mutants m01, m04, m02
+    out += [{"started": True, "ops": ops} for ops in (
+        ["n:D2,v", "n:D1,v", "w0", "w1", "t2", "t2", "f1+", "f2-", "t2", "t2"],
+        ["n:D1,v", "n:D3,v", "w0", "w1", "t2", "f1-", "f3+", "t2", "t2"],
+        ["n:k1,v", "n:k2,v", "w0", "w1", "t2", "t2", "f1+", "t2", "f2-", "t2", "t2"],
+        ["f1+", "f2-", "n:k1,D2,v", "w0", "t1", "t1", "t1"],
+        ["C:r", "C:v,d1", "C:-", "t3", "f1-", "t1", "C:v,v", "S", "C:v"])]
+    # re-entrant histories.  Genuine defects found by this audit (fixed: a task completes only once also when it is
+    # stopped from inside its own next(); Cooperator.stop() survives callbacks that stop/pause other tasks or stop again):
+    out += [{"started": True, "ops": ops, "rx": rx, "oh": oh} for ops, rx, oh in (
+        (["n:@0e", "n:v,v,v", "w0", "t1", "t1", "t1", "t1", "p0"], [["s."]], {}),         # stop() self, then StopIteration
+        (["n:@0d1,v", "n:v,v,v", "w0", "t1", "t1", "t1", "f1+", "t2"], [["s."]], {}),      # stop() self, then yield a Deferred
+        (["n:@0r", "n:v,v,v", "w0", "t1", "t1", "t1", "t1"], [["s."]], {}),                # stop() self, then raise
+        (["n:@0e", "w0", "t1", "p0", "w0"], [["p.", "s."]], {}),                           # pause()+stop() self, then StopIteration
+        (["n:@0e", "n:v,v", "w0", "w1", "t1", "t1", "p1"], [["S"]], {}),                   # Cooperator.stop() from next()
+        (["n:v", "n:v", "n:v", "w0", "w2", "S", "p2", "p1"], [["s1"]], {"0": 0}),          # callback stops another task during Cooperator.stop()
+        (["n:v", "n:v", "n:v", "w0", "w1", "w2", "S", "p2"], [["S"]], {"0": 0}),           # callback stops the cooperator again
+        (["n:v", "n:v", "n:v", "w0", "w1", "S", "r1", "p1"], [["p1"]], {"0": 0}),          # callback pauses another task during stop()
+        # white-box mutants m03, m06, m11
+        (["n:-", "n:v,v", "w0", "w1", "t1", "p1"], [["S"]], {"0": 0}),
+        (["n:@0d1,v", "n:v,v", "t1", "t1", "f1+", "r0", "t2", "t2"], [["p."]], {}),
+        (["n:v", "w0", "S", "p1", "t1"], [["c:v", "n:v"]], {"0": 0}),
+        # a callback that creates tasks / fires Deferreds / asks whenDone again inside a tick
+        (["n:-", "n:d1,v", "w0", "w1", "t2", "t2", "t2"], [["w.", "f1+", "n:v"]], {"0": 0}),
+        # an iterator pausing / resuming / stopping other tasks in the same round
+        (["n:@0v,@1v,v", "n:v,v,v", "n:v,v,v", "w1", "t3", "t3", "t3", "t3"], [["p1", "s2"], ["r1"]], {}),
+    )]
     return out
 
 
@@ -487,7 +972,9 @@ def _script(rng, dctr, maxlen=6):
             items.append("v")
         elif r < 0.92:
             dctr[0] += 1
-            items.append("d%d" % dctr[0])
+            # d: plain Deferred; D: an instance of a subclass (even ids a trivial one, odd ids a DeferredList over the
+            # Deferred that gets fired); k: already called back, its chain held by an unfired inner Deferred
+            items.append("%s%d" % (rng.choice("ddddddDDDkk"), dctr[0]))
         else:
             items.append("r")
             break
@@ -501,7 +988,7 @@ def _history(rng, nops, unmatched=False):
     ntask0 = rng.randint(1, 6)
     prefire = []
     for _ in range(ntask0):
-        k = "n" if rng.random() < 0.85 else "c"
+        k = "n" if rng.random() < 0.85 else rng.choice("cC")
         ops.append(k + ":" + _script(rng, dctr))
         if k == "n":
             handles.append(ntasks)
@@ -540,12 +1027,119 @@ def _history(rng, nops, unmatched=False):
         elif r < 0.93:
             ops.append("G")
         elif ntasks < 8:
-            k = "n" if rng.random() < 0.8 else "c"
+            k = "n" if rng.random() < 0.8 else rng.choice("cC")
             ops.append(k + ":" + _script(rng, dctr))
             if k == "n":
                 handles.append(ntasks)
             ntasks += 1
     return {"started": started, "ops": ops}
+
+
+def _rx_script(rng, dctr, nrx):
+    """a script whose items may carry a hook `@n` (run rx[n] from inside next())"""
+    items = []
+    for _ in range(rng.choice([1, 1, 2, 3, 4, 5])):
+        r = rng.random()
+        if r < 0.55:
+            it = "v"
+        elif r < 0.85:
+            dctr[0] += 1
+            it = "%s%d" % (rng.choice("ddddDk"), dctr[0])
+        elif r < 0.93:
+            it = "r"
+        else:
+            it = "e"
+        if nrx and rng.random() < 0.35:
+            it = "@%d%s" % (rng.randrange(nrx), it)
+        items.append(it)
+        if it[-1] in "re":
+            break
+    return ",".join(items)
+
+
+def _rx_history(rng, nops):
+    """a history with re-entrant operations: rx[n] are operation lists run from inside next() (items `@n…`) or from a
+    whenDone/coiterate callback (oh: observer index -> n)"""
+    dctr = [0]
+    nrx = rng.randint(1, 4)
+    ntask0 = rng.randint(2, 5)
+    ops, handles, ntasks, nobs = [], [], 0, 0
+
+    def create(allow_hooks=True):
+        nonlocal ntasks, nobs
+        k = "n" if rng.random() < 0.75 else rng.choice("cC")
+        ops.append(k + ":" + _rx_script(rng, dctr, nrx if allow_hooks else 0))
+        if k == "n":
+            handles.append(ntasks)
+        else:
+            nobs += 1
+        ntasks += 1
+
+    for _ in range(ntask0):
+        create()
+    for t in handles:
+        if rng.random() < 0.6:
+            ops.append("w%d" % t)
+            nobs += 1
+    fired, up = set(), {}
+    for _ in range(nops):
+        r = rng.random()
+        if r < 0.40:
+            ops.append("t%d" % rng.choice([1, 1, 2, 2, 3, 4, 7]))
+        elif r < 0.48 and handles:
+            t = rng.choice(handles)
+            ops.append("p%d" % t)
+            up[t] = up.get(t, 0) + 1
+        elif r < 0.56 and handles:
+            cands = [t for t in handles if up.get(t, 0) > 0]
+            if cands:
+                t = rng.choice(cands)
+                up[t] -= 1
+                ops.append("r%d" % t)
+        elif r < 0.61 and handles:
+            ops.append("s%d" % rng.choice(handles))
+        elif r < 0.69 and handles:
+            ops.append("w%d" % rng.choice(handles))
+            nobs += 1
+        elif r < 0.82 and dctr[0]:
+            j = rng.randint(1, dctr[0])
+            if j not in fired:
+                fired.add(j)
+                ops.append("f%d%s" % (j, "+" if rng.random() < 0.7 else "-"))
+        elif r < 0.90:
+            ops.append("S")
+        elif r < 0.93:
+            ops.append("G")
+        elif ntasks < 8:
+            create()
+    # the re-entrant operation lists
+    rx = []
+    for _ in range(nrx):
+        lst = []
+        for _ in range(rng.choice([1, 1, 1, 2, 2, 3])):
+            r = rng.random()
+            tgt = "." if rng.random() < 0.45 else str(rng.randrange(max(1, ntasks)))
+            if r < 0.22:
+                lst.append("p" + tgt)
+            elif r < 0.32:
+                lst.append("r" + tgt)
+            elif r < 0.52:
+                lst.append("s" + tgt)
+            elif r < 0.60:
+                lst.append("w" + tgt)
+            elif r < 0.70 and dctr[0]:
+                lst.append("f%d%s" % (rng.randint(1, dctr[0]), rng.choice("++-")))
+            elif r < 0.84:
+                lst.append("S")
+            else:
+                sub = [0]
+                lst.append(rng.choice("nnc") + ":" + ",".join(rng.choice(["v", "v", "r"]) for _ in range(rng.randint(1, 2))))
+        rx.append(lst)
+    oh = {}
+    for o in range(nobs + 1):
+        if rng.random() < 0.5:
+            oh[str(o)] = rng.randrange(nrx)
+    return {"started": rng.random() < 0.92, "ops": ops, "rx": rx, "oh": oh}
 
 
 def _stop_family():
@@ -580,7 +1174,13 @@ def generate(rng, tier):
     yield from fam
     for i in range(n):
         h = _history(rng, rng.choice([6, 12, 20, 30, 45]), unmatched=(i % 10 == 0))
-        if i % 3 == 1 and any(o[0] in "nc" and "r" in o[2:].split(",") for o in h["ops"]):
+        if i % 3 == 1 and any(o[0] in "ncC" and "r" in o[2:].split(",") for o in h["ops"]):
+            h["exc"] = "B"
+        yield h
+    # re-entrant histories (oracle only): operations issued from inside next() and from whenDone/coiterate callbacks
+    for i in range(n // 2):
+        h = _rx_history(rng, rng.choice([4, 8, 12, 20, 30]))
+        if i % 5 == 1:
             h["exc"] = "B"
         yield h
     # long fair-share runs: many ticks of small budget over long scripts with pauses in between
@@ -609,20 +1209,40 @@ def generate(rng, tier):
 
 
 def shrink(c):
+    extra = {k: c[k] for k in ("exc", "rx", "oh") if c.get(k)}
     for d in _shrink(c):
-        if c.get("exc"):
-            d["exc"] = c["exc"]
+        d.update(extra)
         yield d
-    if c.get("exc"):
-        yield {"started": c["started"], "ops": c["ops"]}
+    for k in extra:
+        yield {kk: v for kk, v in c.items() if kk != k}
+    # fewer re-entrant operations / hooks
+    rx, oh = c.get("rx") or [], c.get("oh") or {}
+    for n, lst in enumerate(rx):
+        for j in range(len(lst)):
+            d = dict(c)
+            d["rx"] = rx[:n] + [lst[:j] + lst[j + 1:]] + rx[n + 1:]
+            yield d
+    for o in oh:
+        d = dict(c)
+        d["oh"] = {k: v for k, v in oh.items() if k != o}
+        yield d
+    for i, o in enumerate(c["ops"]):
+        if o[0] in "ncC" and "@" in o:
+            items = o[2:].split(",")
+            for j, it in enumerate(items):
+                if it.startswith("@"):
+                    new = items[:j] + [split_item(it)[1]] + items[j + 1:]
+                    d = dict(c)
+                    d["ops"] = c["ops"][:i] + [o[:2] + ",".join(new)] + c["ops"][i + 1:]
+                    yield d
 
 
 def _shrink(c):
     ops = c["ops"]
     # drop one op (re-numbering task indices when a creation is dropped)
     for i in range(len(ops) - 1, -1, -1):
-        if ops[i][0] in "nc":
-            idx = sum(1 for o in ops[:i] if o[0] in "nc")
+        if ops[i][0] in "ncC":
+            idx = sum(1 for o in ops[:i] if o[0] in "ncC")
             rest, okay = [], True
             for o in ops[:i] + ops[i + 1:]:
                 if o[0] in "prsw":
@@ -638,7 +1258,7 @@ def _shrink(c):
             yield {"started": c["started"], "ops": ops[:i] + ops[i + 1:]}
     # shorten scripts, shrink budgets
     for i, o in enumerate(ops):
-        if o[0] in "nc" and o[2:] != "-":
+        if o[0] in "ncC" and o[2:] != "-":
             items = o[2:].split(",")
             for j in range(len(items)):
                 new = items[:j] + items[j + 1:]
@@ -664,10 +1284,42 @@ def tag(c, out):
     feats = set()
     if c.get("exc"):
         feats.add("exc" + c["exc"])
+    ops = c["ops"]
+    for o in ops:
+        if o[0] in "ncC":
+            if o[0] == "C":
+                feats.add("doneDeferred")
+            for it in parse_script(o[2:]):
+                b = split_item(it)[1]
+                if b[0] in "Dk":
+                    feats.add("flav" + b[0] + (str(int(b[1:]) % 2) if b[0] == "D" else ""))
+    if not c["started"]:
+        feats.add("unstarted")
+    if any("d" in o or "D" in o or "k" in o for o in ops if o[0] in "ncC"):
+        feats.add("D")
+    if is_rx(c) and out.startswith("X"):
+        recs = json.loads(out.split("|obs=")[0][1:])
+        for o, (res, ev, pend) in zip(ops, recs):
+            if res != "ok":
+                feats.add(o[0] + res)
+            ctx = [o[0]]
+            for e in ev:
+                if e[0] == "a":
+                    ctx.append("a")
+                elif e[0] == "o":
+                    ctx.append("o")
+                    feats.add("fin:" + ("F" if e[2].startswith("F") else e[2]) + "@" + ctx[0])
+                elif e[0] == "(":
+                    ctx.append(e[1][0] + ("." if e[1][1:] == "." else ""))
+                elif e[0] == ")":
+                    k = ctx.pop()
+                    if e[1] != "skip":
+                        feats.add("rx:" + "/".join(ctx[-2:]) + ">" + k + ("" if e[1] == "ok" else e[1]))
+                else:
+                    ctx.pop()
+        return " ".join(sorted(feats))
     body = out.split("|obs=")[0]
     toks = body.split(";") if body else []
-    ops = c["ops"]
-    waiting_seen = any("d" in o for o in ops if o[0] in "nc")
     for o, tk in zip(ops, toks):
         res = tk.rstrip("*").split("+")[0]
         k = o[0]
@@ -684,8 +1336,4 @@ def tag(c, out):
         for p in tk.rstrip("*").split("+")[1:]:
             v = p.split("=")[1]
             feats.add("fin:" + ("F" if v.startswith("F") else v))
-    if not c["started"]:
-        feats.add("unstarted")
-    if waiting_seen:
-        feats.add("D")
     return " ".join(sorted(feats))
